@@ -2,7 +2,7 @@ import re
 from pat import *
 from expr import fmt, walk
 from harness import Skip
-from guards import decision_table, block_conditions, fmt_cond
+from guards import decision_table, block_conditions, fmt_cond, phi_defs
 from poly import Poly
 import sym as S
 from rules.common import eqcov_impl, all_terms
@@ -40,6 +40,239 @@ REVIEWED_IDENTITIES = {
 
 def fa(a):
     return ",".join(sorted("%s=%s" % (fmt(k[1])[:40], v) for k, v in a)) or "-"
+
+
+def _sequence(f, g, events):
+    """events = [(block, payload)]: the order in which they execute on every path, or None when two of them are not ordered
+    (mutually exclusive branches).  A before B when B is reachable from A and not conversely, or - inside one loop - when A
+    dominates B."""
+    import functools
+    b = f.body
+    def before(x, y):
+        if x == y:
+            return False
+        rx, ry = y in g.reach(x), x in g.reach(y)
+        if rx and not ry:
+            return True
+        if rx and ry:
+            return b.dominates(x, y)
+        return False
+    blocks = [e[0] for e in events]
+    for i in range(len(blocks)):
+        for j in range(i + 1, len(blocks)):
+            if blocks[i] != blocks[j] and before(blocks[i], blocks[j]) == before(blocks[j], blocks[i]):
+                return None
+    return sorted(events, key=functools.cmp_to_key(lambda x, y: -1 if before(x[0], y[0]) else (1 if before(y[0], x[0]) else 0)))
+
+
+def _self_paths(a, root):
+    """maximal field paths `self.x.y` mentioned in term a (as "x.y")"""
+    out = set()
+    inner = set()
+    def chain(x):
+        names = []
+        while isinstance(x, tuple) and x[0] in ("field", "vfield"):
+            if x[0] == "field":
+                names.append(x[2])
+            elif x[2] not in ("Some", "Ok"):           # (opt as Some).0 is the field itself, not a sub-field
+                names.append(x[3])
+            x = x[1]
+        return ".".join(reversed(names)) if root(x) and names else None
+    for x in walk(a):
+        if isinstance(x, tuple) and x[0] in ("field", "vfield"):
+            c = chain(x)
+            if c is not None:
+                out.add(c)
+                if isinstance(x[1], tuple) and x[1][0] in ("field", "vfield"):
+                    ci = chain(x[1])
+                    if ci is not None and ci != c:
+                        inner.add(ci)
+    return out - inner
+
+
+def _flatten_literal(lit, prefix=""):
+    """(field path, operand) pairs of a struct literal, descending into nested struct literals"""
+    out = []
+    if not (isinstance(lit, tuple) and lit[0] == "agg" and len(lit) > 3 and lit[3]):
+        return out
+    for fname, op in zip(lit[3], lit[2]):
+        sub = _flatten_literal(op, prefix + fname + ".") if isinstance(op, tuple) and op[0] == "agg" and len(op) > 3 and op[3] and \
+            not (op[1].endswith("::Some") or op[1].endswith("::Ok")) else []
+        if sub:
+            out += sub
+        else:
+            out.append((prefix + fname, op))
+    return out
+
+
+def _origins(b, l, readers, seen=None, depth=0):
+    """reader call sites (blocks) whose results can flow into local l: through assignments, conversions, `?`, wrappers
+    (calls are followed through their arguments) and mutation of l through a reference (`v.push(x)`: the other arguments)"""
+    if seen is None:
+        seen = set()
+    if l in seen or depth > 40:
+        return set()
+    seen.add(l)
+    out = set()
+    for (bi, si, kind) in b.defs.get(l, []):
+        if si == "term":
+            t = b.blocks[bi].term
+            if bi in readers:
+                out.add(bi)
+                continue
+            for a in t.args:
+                if a.kind in ("copy", "move"):
+                    out |= _origins(b, a.place[0], readers, seen, depth + 1)
+        else:
+            rv = b.blocks[bi].stmts[si].rv
+            if rv is None:
+                continue
+            for o in rv.ops:
+                if o.kind in ("copy", "move"):
+                    out |= _origins(b, o.place[0], readers, seen, depth + 1)
+            if rv.place is not None:
+                out |= _origins(b, rv.place[0], readers, seen, depth + 1)
+    # writes through a reference to l
+    refs = set()
+    for bi, si, st in b.iter_stmts():
+        if st.kind == "assign" and st.rv is not None and st.rv.kind == "ref" and st.rv.place is not None and st.rv.place[0] == l and not st.place[1]:
+            refs.add(st.place[0])
+    grew = True
+    while grew:                                   # reborrows / moves of the reference
+        grew = False
+        for bi, si, st in b.iter_stmts():
+            if st.kind == "assign" and st.rv is not None and not st.place[1] and st.place[0] not in refs:
+                srcs = [o.place[0] for o in st.rv.ops if o.kind in ("copy", "move")] + ([st.rv.place[0]] if st.rv.place is not None else [])
+                if any(x in refs for x in srcs) and st.rv.kind in ("use", "ref", "cast"):
+                    refs.add(st.place[0])
+                    grew = True
+    for bi, t in b.calls():
+        ls = [a.place[0] for a in t.args if a.kind in ("copy", "move")]
+        if ls and ls[0] in refs and bi not in readers:
+            for x in ls[1:]:
+                out |= _origins(b, x, readers, seen, depth + 1)
+    return out
+
+
+def _collapse(seq):
+    out = []
+    for x in seq:
+        if not out or out[-1] != x:
+            out.append(x)
+    return out
+
+
+def order_rules(ctx, rule="R-C07.O", floor=11):
+    """writer and reader agree on the ORDER of the fields: for every struct - and every struct-like enum variant - with an
+    Encode impl and a Decode / ParameterizedDecode impl, the sequence of fields written (calls that take the output buffer,
+    attributed to the field of `self` they mention, or that the enclosing loop iterates) equals the sequence of fields read
+    (calls that take the cursor, attributed to the field of the struct literal their result flows into - by MIR local, i.e.
+    by call site - directly, through `?`/conversions, or through `v.push(..)`).  The types agree by construction: a field can
+    only be initialised from a value of its own type.  Variants are separated by the variant test that dominates the writer
+    and by the literal the reader reaches; codecs whose calls are still not totally ordered are skipped."""
+    prog = ctx.prog
+    n = 0
+    skipped = []
+    encs = [f for f in prog.fns if f.name == "encode" and f.impl_trait == "codec::Encode" and f.body is not None]
+    for fe in sorted(encs, key=lambda f: f.id):
+        imp = prog.impl_by_did.get(fe.impl) or {}
+        sty = prog.types[imp["self"]] if "self" in imp else None
+        if sty is None or sty.get("k") != "adt":
+            continue
+        path = sty.get("path")
+        adef = prog.adt_by_path.get(path)
+        if adef is None:
+            continue
+        variants = [v["n"] for v in adef.get("variants", [])]
+        multi = len(variants) > 1
+        decs = [f for f in prog.fns if f.name in ("decode", "decode_with_param") and f.impl_trait in ("codec::Decode", "codec::ParameterizedDecode")
+                and f.body is not None and (prog.impl_by_did.get(f.impl) or {}).get("self") is not None
+                and prog.types[prog.impl_by_did[f.impl]["self"]].get("path") == path]
+        if not decs:
+            continue
+        ge = ctx.guards(fe)
+        be = fe.body
+        bytes_e = be.argc                                   # encode(&self, bytes)
+        wr_all = []
+        for bi, t in be.calls():
+            if t.target is None or bi not in be.reachable or not any(a.kind in ("copy", "move") and Arg(bytes_e)(ge.eb.operand(a)) for a in t.args):
+                continue
+            ce = ge.eb.call_expr(t)
+            names = set()
+            for a in ce[2]:
+                if Arg(bytes_e)(a):
+                    continue
+                names |= _self_paths(a, Arg(1))
+            if not names and ge.loop_of(bi) is not None:
+                class _E:
+                    block = bi
+                src = ctx.loop_source(fe, _E)
+                if src is not None:
+                    names |= _self_paths(src, Arg(1))
+            vs = set(c[2] for c in block_conditions(ge, bi) if c[0] == "variant" and c[3] and Arg(1)(c[1])) if multi else set()
+            wr_all.append((bi, sorted(names), vs))
+        for V in (variants if multi else [None]):
+            wr = [(bi, ns) for bi, ns, vs in wr_all if V is None or V in vs]
+            wr = _sequence(fe, ge, wr) if wr else None
+            if not wr:
+                skipped.append("%s%s" % (path, "::" + V if V else ""))
+                continue
+            enc_seq = _collapse([ns[0] for _, ns in wr if len(ns) == 1])
+            for fd in decs:
+                gd = ctx.guards(fd)
+                bd = fd.body
+                cur = bd.argc                               # decode(bytes) / decode_with_param(param, bytes)
+                # the literal of this struct / variant
+                lits = [(bi, si, st) for bi, si, st in bd.iter_stmts() if st.kind == "assign" and st.rv is not None and st.rv.kind == "agg" and
+                        st.rv.agg == "adt" and st.rv.path == path and st.rv.fields and (V is None or st.rv.vname == V) and bi in bd.reachable]
+                if len(lits) != 1:
+                    skipped.append("%s%s" % (path, "::" + V if V else ""))
+                    continue
+                lb, lsi, lst = lits[0]
+                rd = []
+                for bi, t in bd.calls():
+                    if t.target is None or bi not in bd.reachable or not any(a.kind in ("copy", "move") and Arg(cur)(gd.eb.operand(a)) for a in t.args):
+                        continue
+                    if lb in gd.reach(bi):
+                        rd.append((bi, None))
+                rd = _sequence(fd, gd, rd) if rd else None
+                if not rd:
+                    skipped.append("%s%s" % (path, "::" + V if V else ""))
+                    continue
+                readers = dict((bi, i) for i, (bi, _) in enumerate(rd))
+                attributed = {}
+                def visit(rv, prefix):
+                    if rv is None or rv.kind != "agg" or not rv.fields:
+                        return
+                    for fname, o in zip(rv.fields, rv.ops):
+                        if o.kind not in ("copy", "move"):
+                            continue
+                        l = o.place[0]
+                        ds = bd.defs.get(l, [])
+                        if len(ds) == 1 and ds[0][1] != "term":     # nested struct literal built just before: descend
+                            inner = bd.blocks[ds[0][0]].stmts[ds[0][1]].rv
+                            if inner is not None and inner.kind == "agg" and inner.agg == "adt" and inner.fields and inner.vname not in ("Some", "Ok"):
+                                visit(inner, prefix + fname + ".")
+                                continue
+                        for rb in _origins(bd, l, readers):
+                            attributed.setdefault(readers[rb], set()).add(prefix + fname)
+                visit(lst.rv, "")
+                dec_seq = _collapse([sorted(attributed[i])[0] for i in range(len(rd)) if i in attributed and len(attributed[i]) == 1])
+                common = _collapse([x for x in enc_seq if x in dec_seq])
+                common_d = _collapse([x for x in dec_seq if x in enc_seq])
+                if len(common) < 2:
+                    skipped.append("%s%s" % (path, "::" + V if V else ""))
+                    continue
+                n += 1
+                what = "%s%s" % (path, "::" + V if V else "")
+                key = "%s:%s%s" % (rule, fd.id, ":" + V if V else "")
+                if common == common_d:
+                    ctx.ok(rule, key, "%s: fields written and read in the same order %s" % (what, common), loc=fd.loc,
+                           sample={"rule": rule, "type": what, "order": common})
+                else:
+                    ctx.bad(rule, key, "%s: encode writes the fields in the order %s but %s reads them in the order %s" % (what, common, fd.name, common_d), loc=fd.loc)
+    ctx.floor(rule, floor)
+    return n, sorted(set(skipped))
 
 
 def run(ctx):
@@ -96,6 +329,9 @@ def run(ctx):
                 npairs, "; ".join("[%s] %r" % (fa(a), c) for a, c in E)[:300]), loc=f.loc,
                 sample={"rule": rule, "impl": f.id, "paths": ["[%s] %r" % (fa(a), c) for a, c in E][:4]})
     ctx.floor(rule, 32)
+
+    # ---------------- R-C07.O field order
+    order_rules(ctx)
 
     # ---------------- R-C07.T tag tables
     rule = "R-C07.T"
